@@ -11,4 +11,5 @@ func TestCanon(t *testing.T) {
 	fmt.Println(len(c), c)
 }
 
-func init() { installSeam(); debug.SetGCPercent(100); runtime.GOMAXPROCS(1) }
+
+func init() { installSeam(); ballast = make([]byte, 256<<20); debug.SetGCPercent(100); runtime.GOMAXPROCS(1) }
